@@ -1,6 +1,7 @@
 (* C16 — Resource registers exactly the documented REST table for the controller. Property theorems only. *)
 From Coq Require Import Permutation.
 From Rux Require Import Base Str Consts Norm NormFacts Reg RegFacts Rest RestFacts Pattern Pat Cache Table TableFacts PatTable SelectFacts RoundTrip TableLink Sys RestLookup.
+From Rux Require Import RoundTrip RestOrder.
 
 (* For every subset of the seven actions, visited in ANY order (Go iterates a map), every per-action middleware
    map and base path: Resource registers exactly one route per implemented action — documented methods and name,
@@ -48,7 +49,7 @@ Theorem C16_create_never_show : forall o G acts rt d,
   rest_prefix G = true -> o_caching o = false -> In ACreate acts ->
   reg_routes (new_router o) (map (fun a => entry_rdef (res_entry G a)) acts) = Ok rt ->
   option_map (fun i => nth i acts d) (sel (fst (match_ rt GET (G ++ create_seg)))) = Some ACreate.
-Proof. exact create_never_show_string. Qed.
+Proof. exact RestLookup.create_never_show_string. Qed.
 (* the action that serves a request does not depend on the order in which Go's map iteration registered the table *)
 Theorem C16_lookup_order_independent : forall o G acts acts' rt rt' m path d,
   rest_prefix G = true -> Permutation acts acts' -> o_caching o = false -> no_slash m -> rooted path ->
@@ -69,6 +70,44 @@ Theorem C16_lookup_order_independent_resource : forall o base res acts acts' use
   option_map (fun i => nth i acts' d) (sel (fst (match_ rt' m path))).
 Proof. exact resource_lookup_order_independent. Qed.
 
+(* F22 (repaired by 0671502): base paths with path variables (a nested resource). All routes of the resource are dynamic then,
+   the first registered matching route wins, and Resource now registers the implemented actions in the canonical order
+   (Index, Create, Store, Show, ...). For every printable pattern prefix Gp and every set of implemented actions with
+   Create: GET of an instance of Gp/create is NEVER handled by Show ... *)
+Theorem C16_create_never_show_dynamic : forall o Gp impl rt path,
+  o_caching o = false -> impl ACreate = true ->
+  Forall wf_entry (map (pres_entry Gp) (canonical impl)) ->
+  reg_routes (new_router o) (map (fun a => entry_rdef (pres_entry Gp a)) (canonical impl)) = Ok rt ->
+  pat_matches (to_pat (action_ppat Gp ACreate)) path = true ->
+  forall i, sel (fst (match_ rt GET path)) = Some i -> nth_error (canonical impl) i <> Some AShow.
+Proof. exact RestOrder.create_never_show_string. Qed.
+(* ... and when the variables of the prefix are default ones ({name}: they match no '/'), it is handled by Create (with a
+   variable that spans '/', such as {all}, the Index route may match the same path first: it is registered before Create) *)
+Theorem C16_create_selected_dynamic : forall o Gp impl rt path,
+  o_caching o = false -> impl ACreate = true -> pres_prefix Gp = true -> default_vars Gp = true ->
+  reg_routes (new_router o) (map (fun a => entry_rdef (pres_entry Gp a)) (canonical impl)) = Ok rt ->
+  pat_matches (to_pat (action_ppat Gp ACreate)) path = true ->
+  sel (fst (match_ rt GET path)) = Some (create_pos impl) /\ nth_error (canonical impl) (create_pos impl) = Some ACreate.
+Proof. exact create_selected_default. Qed.
+(* the same through the registration model of Resource *)
+Theorem C16_resource_create_before_show : forall o base res impl uses st' Gp rt path,
+  show_items Gp = nf false (base ++ res) -> clean (show_items Gp) ->
+  pres_prefix Gp = true -> seg_vars Gp -> o_caching o = false -> impl ACreate = true ->
+  exec_block false (resource_stmts base res (canonical impl) uses) rinit = Ok st' ->
+  reg_routes (new_router o) (map rdef_of (r_routes st')) = Ok rt ->
+  pat_matches (to_pat (action_ppat Gp ACreate)) path = true ->
+  option_map (fun i => nth i (canonical impl) AIndex) (sel (fst (match_ rt GET path))) = Some ACreate.
+Proof. exact resource_create_before_show. Qed.
+(* before the repair (map iteration order): with Show registered before Create, GET /users/7/posts/create is handled by Show
+   with id = "create" *)
+Theorem C16_legacy_F22_refuted : exists Gp acts rt path,
+  pres_prefix Gp = true /\ default_vars Gp = true /\ Permutation acts (canonical (fun _ => true)) /\
+  reg_routes (new_router default_opts) (map (fun a => entry_rdef (pres_entry Gp a)) acts) = Ok rt /\
+  pat_matches (to_pat (action_ppat Gp ACreate)) path = true /\
+  option_map (fun i => nth i acts AIndex) (sel (fst (match_ rt GET path))) = Some AShow /\
+  fst (match_ rt GET path) = LHit 0 (Some [([117; 105; 100]%N, [55]%N); (id_name, to_lower (action_name ACreate))]).
+Proof. exact create_before_show_legacy_refuted. Qed.
+
 Print Assumptions C16_table.
 Print Assumptions C16_order_independent.
 Print Assumptions C16_documented_paths.
@@ -78,3 +117,7 @@ Print Assumptions C16_lookup_table.
 Print Assumptions C16_create_never_show.
 Print Assumptions C16_lookup_order_independent.
 Print Assumptions C16_lookup_order_independent_resource.
+Print Assumptions C16_create_never_show_dynamic.
+Print Assumptions C16_create_selected_dynamic.
+Print Assumptions C16_resource_create_before_show.
+Print Assumptions C16_legacy_F22_refuted.
